@@ -147,6 +147,9 @@ POOL = {
             ("lambda e: (e.met(), e.Jets().Count())", "other"), ("lambda e: {'m': e.met(), 'j': e.Jets()}", "other"), ("lambda e: e", "Event"),
             ("lambda e: {'n': 1, 'm': e.met()}", "rec"), ("lambda e: {'n': e.Jets().Count(), 'm': e.met()}", "rec"),
             ("lambda e: e.Tracks().Select(lambda t: t.pt())", "nums"), ("lambda e: e.Jets().First().pt()", "num"),
+            # records with the same ordinary fields and a key that is no identifier, holding another type from literal to literal
+            ("lambda e: {'n': 1, 'm': e.met(), 'n-jets': e.Jets().Count()}", "rec"), ("lambda e: {'n': 1, 'm': e.met(), 'n-jets': 'many'}", "rec"),
+            ("lambda e: {'n': 1, 'm': e.met(), 'n-jets': e.met(), 0: e.Jets()}", "rec"), ("lambda e: {'n': 1, 'm': e.met(), 0: 'zero', 'class': e.met() > 1}", "rec"),
         ],
         "Where": [("lambda e: e.met() > 10", None), ("lambda e: e.Jets().Count() > 1 and e.met() < 100", None), ("lambda e: e.Jets().Where(lambda j: j.pt() > 1).Count() == 2", None)],
         "SelectMany": [("lambda e: e.Jets()", "Jet"), ("lambda e: e.Tracks()", "Trk"), ("lambda e: e.Jets('x').Select(lambda j: j.pt())", "num")],
@@ -155,7 +158,7 @@ POOL = {
     # of a conditional whose other branch is a record with the same fields of other number types
     "rec": {
         "Select": [("lambda d: d if d.n > 0 else {'n': 1.5, 'm': 2}", "other"), ("lambda d: {'m': 1, 'n': 2.5} if d.m > 1 else d", "other"), ("lambda d: d.n", "num"), ("lambda d: d.m * 2", "num"),
-                   ("lambda d: d", "rec")],
+                   ("lambda d: d", "rec"), ("lambda d: {'n': d.n, 'm': d.m, 'n-jets': d.m > 1}", "rec"), ("lambda d: {'n': d.n, 'm': d.m, 'n-jets': (d.n, d.m)}", "rec")],
         "Where": [("lambda d: d.n > 0", None), ("lambda d: d.m > 1.5 and d.n < 3", None)],
         "SelectMany": [],
     },
@@ -509,9 +512,9 @@ class ImmutabilityMonitor:
                 hints = typing.get_type_hints(t)
             except Exception:
                 hints = {}
-            return (t.__name__, tuple(sorted((k, ImmutabilityMonitor.type_desc(v, depth + 1)) for k, v in hints.items())),
-                    tuple(sorted((k, repr(v)) for k, v in getattr(t, "__annotations__", {}).items())),
-                    tuple(sorted((k, repr(f.type)) for k, f in getattr(t, "__dataclass_fields__", {}).items())))
+            return (t.__name__, tuple(sorted(((k, ImmutabilityMonitor.type_desc(v, depth + 1)) for k, v in hints.items()), key=repr)),
+                    tuple(sorted(((k, repr(v)) for k, v in getattr(t, "__annotations__", {}).items()), key=repr)),
+                    tuple(sorted(((k, repr(f.type)) for k, f in getattr(t, "__dataclass_fields__", {}).items()), key=repr)))
         return repr(t)
 
     def on_stream(self, hist, e):
